@@ -57,6 +57,8 @@ package server
 //@   ensures [hover_dotted] okBool(raw["features.hover"]) ==> result.Features.Hover == boolOf(raw["features.hover"])
 //@   ensures [hover_nested] !okBool(raw["features.hover"]) && typeis(raw["features"], "map[string]interface{}") && okBool(as(raw["features"], "map[string]interface{}")["hover"]) ==> result.Features.Hover == boolOf(as(raw["features"], "map[string]interface{}")["hover"])
 //@   ensures [hover_nested_bool] !typeis(raw["features.hover"], bool) && !typeis(raw["features.hover"], string) && typeis(raw["features"], "map[string]interface{}") && typeis(as(raw["features"], "map[string]interface{}")["hover"], bool) ==> result.Features.Hover == as(as(raw["features"], "map[string]interface{}")["hover"], bool)
+//@   ensures [C19:maxresults_dotted_int] typeis(raw["completion.maxResults"], int) ==> result.Completion.MaxResults == as(raw["completion.maxResults"], int)
+//@   ensures [C19:maxresults_nested_int] !typeis(raw["completion.maxResults"], int) && !typeis(raw["completion.maxResults"], int32) && !typeis(raw["completion.maxResults"], int64) && !typeis(raw["completion.maxResults"], float64) && !typeis(raw["completion.maxResults"], float32) && !typeis(raw["completion.maxResults"], string) && typeis(raw["completion"], "map[string]interface{}") && typeis(as(raw["completion"], "map[string]interface{}")["maxResults"], int) ==> result.Completion.MaxResults == as(as(raw["completion"], "map[string]interface{}")["maxResults"], int)
 //@   ensures [hover_keep] !okBool(raw["features.hover"]) && !typeis(raw["features"], "map[string]interface{}") ==> result.Features.Hover == settings.Features.Hover
 //@   ensures [frame_limits_untouched] !typeis(raw["limits"], "map[string]interface{}") && !typeis(raw["limits.maxIncludeDepth"], int) && !typeis(raw["limits.maxIncludeDepth"], int32) && !typeis(raw["limits.maxIncludeDepth"], int64) && !typeis(raw["limits.maxIncludeDepth"], float64) && !typeis(raw["limits.maxIncludeDepth"], float32) && !typeis(raw["limits.maxIncludeDepth"], string) ==> result.Limits.MaxIncludeDepth == settings.Limits.MaxIncludeDepth
 
